@@ -5,7 +5,7 @@
    are the statement's vocabulary, defined in Model/BgpAds.v independently of
    the transcription of hasHealthyEndpoint. *)
 From Coq Require Import List NArith.
-From Verif Require Import Model.BgpAds Proofs.BgpAdsElig.
+From Verif Require Import Model.BgpAds Model.Speaker Proofs.BgpAdsElig Proofs.SpeakerP.
 Local Open Scope N_scope.
 
 (* hasHealthyEndpoint = "some address whose every (selected) carrier can serve" *)
@@ -47,6 +47,31 @@ Proof. exact literal_implies_code. Qed.
 
 Theorem C10_not_owner_iff : forall me v, bgp_decide me v = RNotOwner <-> ~ adv_selects me v.
 Proof. exact bgp_reason_not_owner. Qed.
+
+(* ---- the same iff at every quiescent point of every history of the speaker (Model/Speaker.v):
+   after any event list followed by the re-syncs it requests (no F25 staleness; F9 does not matter
+   for BGP), the Services with BGP advertisements on this node are exactly those whose address pool is
+   configured and for which the eligibility rule above holds on the CURRENT node state ... *)
+Theorem C10_announced_over_bgp_iff : forall ev spk h name,
+  forallb esvc_ok h = true -> stale_after ev ([], sinit spk) false h = false ->
+  let K := fst (srun ev spk h) in let st := snd (srun ev spk h) in
+  bs_ads (s_bgp st) name <> None <->
+  exists s ips p, plan (s_cfg st) (klookup K name) = Some (s, ips, p) /\
+    let v := bgp_view ev (s_nodes st) p s in
+    adv_selects (en_me ev) v /\ node_unavail v = false /\ (bv_ignore v = true \/ node_excl v = false) /\
+    (exists a, ready_all v a) /\ (bv_local v = true -> exists a, ready_here (en_me ev) v a).
+Proof. exact announced_over_bgp_iff. Qed.
+
+(* ... and every live session carries exactly the routes those Services produce for its peer *)
+Theorem C10_session_routes_iff : forall ev spk h q l,
+  forallb esvc_ok h = true -> stale_after ev ([], sinit spk) false h = false ->
+  let K := fst (srun ev spk h) in let st := snd (srun ev spk h) in
+  In q (bs_peers (s_bgp st)) -> ps_sess q = Some l ->
+  forall ad, In ad l <->
+    exists name s ips p, plan (s_cfg st) (klookup K name) = Some (s, ips, p) /\
+      c10_code (en_me ev) (bgp_view ev (s_nodes st) p s) /\ In ad (make_ads (en_me ev) ips (pl_bgp p)) /\
+      matches_peer (pc_name (ps_cfg q)) ad = true.
+Proof. exact session_routes_iff. Qed.
 
 (* non-vacuity *)
 Example C10_nonvacuous_cluster :
